@@ -15,13 +15,13 @@ ASSUMPTIONS = ["q-SDH for the accumulator; unforgeability (C01) links the presen
 
 
 def gen_ops(rng, nh, ln):
-    ops = [{"k": "issue", "id": h} for h in range(nh)]
+    ops = [{"k": rng.choice(["issue", "issue", "blind"]), "id": h} for h in range(nh)]
     rng.shuffle(ops)
     ops = ops[:rng.randrange(2, nh + 1)]
     for _ in range(ln):
         k = rng.random()
         if k < 0.2:
-            ops.append({"k": "issue", "id": rng.randrange(nh)})
+            ops.append({"k": rng.choice(["issue", "blind"]), "id": rng.randrange(nh)})
         elif k < 0.6:
             n = rng.choice([1, 1, 1, 2, 2, 0, 3])
             ops.append({"k": "revoke", "ids": [rng.randrange(nh) for _ in range(n)]})
@@ -45,6 +45,11 @@ def explore(ctx):
         [{"k": "issue", "id": 0}, {"k": "issue", "id": 1}, {"k": "revoke", "ids": [1, 3]}, {"k": "refresh", "id": 1}, {"k": "revoke", "ids": [0]}, {"k": "issue", "id": 0}],
         [{"k": "issue", "id": 0}, {"k": "issue", "id": 1}, {"k": "issue", "id": 2}, {"k": "revoke", "ids": [2, 1]}, {"k": "refresh", "id": 1}, {"k": "refresh", "id": 0}],
     ]
+    # an identifier whose first issuance was blind: revoked, then asked for again through either entry point
+    fixed += [
+        [{"k": "blind", "id": 0}, {"k": "issue", "id": 1}, {"k": "revoke", "ids": [0]}, {"k": "blind", "id": 0}, {"k": "refresh", "id": 0}],
+        [{"k": "blind", "id": 0}, {"k": "blind", "id": 1}, {"k": "revoke", "ids": [1]}, {"k": "issue", "id": 1}, {"k": "refresh", "id": 0}],
+    ]
     for j, f in enumerate(fixed):
         for suite in ("bbs", "ps"):
             cases.insert(0, {"op": "f_revoc", "suite": suite, "holders": 4, "ops": f})
@@ -57,6 +62,8 @@ def explore(ctx):
     def c13op(o):
         if o["k"] == "issue":
             return {"k": "issue", "id": o["id"] + 1}
+        if o["k"] == "blind":
+            return {"k": "blind", "id": o["id"] + 1, "valid": True}
         if o["k"] == "revoke":
             return {"k": "revoke", "ids": [x + 1 for x in o["ids"]]}
         return {"k": "refresh", "id": o["id"] + 1}
@@ -112,7 +119,7 @@ def explore(ctx):
     return {
         "evaluations": n_pres,
         "distinct_nontrivial": len(distinct),
-        "rule": "cases = issuer histories over 2..4 holders (issue, re-issue, single and batch revocation incl. failing batches, refresh); after every operation every holder with a credential presents with a revocation statement against the current registry value using its latest handle, its oldest handle, the handle it maintained by single-step public updates, another holder's handle and the registry value itself; the verdict of Presentation::create + verify is compared with the verdict derived from the Coq registry model's trace; distinct by (suite, history prefix, holder, handle kind)",
+        "rule": "cases = issuer histories over 2..4 holders (issue and blind issue, re-issue through either entry point, single and batch revocation incl. failing batches, refresh); after every operation every holder with a credential presents with a revocation statement against the current registry value using its latest handle, its oldest handle, the handle it maintained by single-step public updates, another holder's handle and the registry value itself; the verdict of Presentation::create + verify is compared with the verdict derived from the Coq registry model's trace; distinct by (suite, history prefix, holder, handle kind)",
         "samples": samples,
         "histograms": hist,
         "failures": failures,
